@@ -56,6 +56,17 @@ TQ(nu) == CASE nu = 1 -> <<1000000, 1839473, 6313752, 12706205, 63656741>>
             [] nu = 500 -> <<674981, 1001644, 1647907, 1964720, 2585698>>
             [] nu = 1000 -> <<674735, 1001143, 1646379, 1962339, 2580755>>
             [] OTHER -> <<>>
+\* a probability very close to one: p = 1 - k 2^-e = 1 - 5 * 2^-24 is a number of both scalar types,
+\* the argument (1+p)/2 = 1 - 5 * 2^-25 of the quantile only of f64 (an f32 computation of it is off
+\* by 20 % of the tail).  Quantiles as v * 10^-d (mpmath, 15 digits).
+PFine == [k |-> 5, e |-> 24]
+TQFine(nu) == CASE nu = 1 -> [v |-> 2136141486, d |-> 3]
+                [] nu = 2 -> [v |-> 1831786478, d |-> 6]
+                [] nu = 3 -> [v |-> 1948617004, d |-> 7]
+                [] nu = 4 -> [v |-> 669597644, d |-> 7]
+                [] nu = 5 -> [v |-> 363167045, d |-> 7]
+                [] nu = 6 -> [v |-> 245828110, d |-> 7]
+                [] OTHER -> [v |-> 0, d |-> 0]
 \* degrees of freedom beyond the lattice: reached by replicating the rows of an instance (ReplLaw)
 BigNus == {8, 10, 12, 15, 20, 24, 30, 31, 32, 40, 50, 60, 80, 100, 120, 200, 300, 500, 1000}
 \* the quantile decreases with the degrees of freedom and stays above the normal quantile
